@@ -347,6 +347,7 @@ func monC02(c *drv.Ctx) {
 			c02Stream(cs, []ref.Value{v, small, v}, [][]byte{e, se, e}, []byte{1, 2}, sched, false)
 			c02Stream(cs, []ref.Value{v}, [][]byte{e}, nil, sched, true)
 		}
+		c02ReleasedBuffer(cs, v, e)
 		cs.Count(true, "huge", size, mode)
 		cs.C.Obs("multi-megabyte values", 1)
 	})
@@ -414,4 +415,63 @@ func polluteCodecPools(cs *drv.Case) {
 		dr.Release(nil)
 	}()
 	cs.C.Obs("pool pollutions (failed calls by a previous user)", 1)
+}
+
+var eeRef []byte
+
+// c02ReleasedBuffer: a decoder that is released after a multi-megabyte value and then taken from the pool
+// again must neither return bytes that a later user of the shared buffer pool can overwrite, nor write
+// into that user's buffers.
+func c02ReleasedBuffer(cs *drv.Case, v ref.Value, e []byte) {
+	if eeRef == nil {
+		eeRef = bytes.Repeat([]byte{0xEE}, 16<<20)
+	}
+	small := ref.Value{T: ref.STRING, S: []byte("after-release")}
+	se := small.Encode(nil)
+	fail := func(check, msg string) {
+		cs.Fail(check, M{"skipper": "ReaderSkipDecoder", "history": "release-after-huge-value"}, M{"value_bytes": len(e), "message": msg})
+	}
+	for rep := 0; rep < 2; rep++ {
+		src := &doubles.Source{Data: e, Len: len(e), ErrAt: len(e), Err: io.EOF, Sched: doubles.SchedHuge, R: cs.R, Budget: 10*len(e) + 100000}
+		d1 := thrift.NewReaderSkipDecoder(src)
+		out, err := d1.Next(thrift.TType(v.T))
+		ok := err == nil && bytes.Equal(out, e)
+		d1.Release()
+		if !ok {
+			fail("skip-wrong-bytes", fmt.Sprintf("huge value not returned intact (err=%v)", err))
+			return
+		}
+		// the next decoder from the pool (normally the very same object)
+		stream2 := append(append([]byte(nil), se...), e...)
+		src2 := &doubles.Source{Data: stream2, Len: len(stream2), ErrAt: len(stream2), Err: io.EOF, Sched: doubles.SchedHuge, R: cs.R, Budget: 10*len(stream2) + 100000}
+		d2 := thrift.NewReaderSkipDecoder(src2)
+		out2, err2 := d2.Next(thrift.STRING)
+		// other users of the shared pool now take buffers of every class the decoder can have used, and fill them
+		var tenants [][]byte
+		for c := 1 << 20; c <= 16<<20; c *= 2 {
+			for k := 0; k < 2; k++ {
+				b := san.PoolMalloc(c)
+				copy(b, eeRef)
+				tenants = append(tenants, b)
+			}
+		}
+		if err2 != nil || !bytes.Equal(out2, se) {
+			fail("skip-wrong-bytes", fmt.Sprintf("the value returned by a decoder taken from the pool after a multi-megabyte value changed when other users allocated from the buffer pool (err=%v)", err2))
+		}
+		out3, err3 := d2.Next(thrift.TType(v.T))
+		if err3 != nil || !bytes.Equal(out3, e) {
+			fail("skip-wrong-bytes", fmt.Sprintf("second huge value not returned intact (err=%v)", err3))
+		}
+		for _, b := range tenants {
+			if !bytes.Equal(b, eeRef[:len(b)]) {
+				fail("skip-writes-foreign-buffer", fmt.Sprintf("a %d-byte buffer another user holds from the pool was written while the decoder read a value", len(b)))
+				break
+			}
+		}
+		for _, b := range tenants {
+			san.PoolFree(b)
+		}
+		d2.Release()
+		cs.C.Obs("release-after-huge-value histories", 1)
+	}
 }
